@@ -26,6 +26,14 @@ const WRITER_CMD: &str = r#"{
   }
 }"#;
 
+/// `.append` fed by a byte stream that arrives in pieces (external command output over a pipe)
+const STREAM_CMD: &str = r#"{
+  run: {|frame|
+    ^sh -c "head -c 5000 /dev/zero | tr '\\0' 'a'; sleep 0.03; head -c 20000 /dev/zero | tr '\\0' 'b'; sleep 0.03; head -c 3 /dev/zero | tr '\\0' 'c'" | .append bs.out
+    []  | each {|x| $x}
+  }
+}"#;
+
 const WRITER_HANDLER: &str = r#"{
   run: {|frame|
     if $frame.topic != "hw.in" { return }
@@ -154,6 +162,7 @@ fn matrix(srv: &mut Srv, seed: u64, res: &mut CaseResult) -> R<()> {
     // script entry points: .append (string / binary / record) and return value in a command, handler return value, generator
     srv.must_append("w.define", ZERO_CONTEXT, Some(WRITER_CMD.as_bytes()), None, None)?;
     srv.must_append("hw.register", ZERO_CONTEXT, Some(WRITER_HANDLER.as_bytes()), None, None)?;
+    srv.must_append("bs.define", ZERO_CONTEXT, Some(STREAM_CMD.as_bytes()), None, None)?;
     srv.wait(Duration::from_secs(30), |log| log.iter().any(|f| f.topic == "hw.registered"))?;
     srv.settle(Duration::from_millis(80), Duration::from_secs(5))?;
     let texts: Vec<String> = vec![
@@ -176,6 +185,7 @@ fn matrix(srv: &mut Srv, seed: u64, res: &mut CaseResult) -> R<()> {
         let h = srv.must_append("hw.in", ZERO_CONTEXT, Some(t.as_bytes()), None, None)?;
         calls.push((t.clone(), c, h));
     }
+    let bs_call = srv.must_append("bs.call", ZERO_CONTEXT, None, None, None)?;
     let want_done = calls.len();
     let ok = srv.wait(Duration::from_secs(40), |log| log.iter().filter(|f| f.topic == "w.complete").count() >= want_done && log.iter().filter(|f| f.topic == "hw.out").count() >= want_done)?;
     if !ok {
@@ -221,6 +231,29 @@ fn matrix(srv: &mut Srv, seed: u64, res: &mut CaseResult) -> R<()> {
                 let want = sha256_integrity(json_text.as_bytes());
                 if f.hash.as_ref().map(|h| h.to_string()).as_deref() != Some(want.as_str()) {
                     res.find(&["C10"], "hash-is-not-sha256-of-the-documented-rendering/handler_return_value", json!({"frame": f, "want": want}));
+                }
+            }
+        }
+    }
+    // byte-stream input to .append
+    {
+        srv.wait(Duration::from_secs(20), |log| log.iter().any(|f| (f.topic == "bs.complete" || f.topic == "bs.error") && meta_str(f, "frame_id") == Some(&bs_call.id.to_string())))?;
+        let log2: Vec<Frame> = srv.era_log().to_vec();
+        let mut want_bytes = vec![b'a'; 5000];
+        want_bytes.extend(vec![b'b'; 20000]);
+        want_bytes.extend(vec![b'c'; 3]);
+        res.count("entry_point_writes_checked", 1);
+        res.seen("entry_points", ".append byte stream");
+        match log2.iter().find(|f| f.topic == "bs.out") {
+            None => {
+                let err = log2.iter().find(|f| f.topic == "bs.error").map(|f| f.meta.clone());
+                res.inconclusive = Some(format!("byte-stream command produced no frame: {:?}", err));
+            }
+            Some(f) => {
+                let got = f.hash.as_ref().map(|h| h.to_string());
+                if got.as_deref() != Some(sha256_integrity(&want_bytes).as_str()) {
+                    let stored = match &f.hash { Some(h) => srv.cas(h)?.map(|b| b.len()), None => None };
+                    res.find(&["C10"], "hash-is-not-sha256-of-the-documented-rendering/.append_byte_stream", json!({"got": got, "want": sha256_integrity(&want_bytes), "stored_len": stored, "want_len": want_bytes.len()}));
                 }
             }
         }
